@@ -211,6 +211,14 @@ func fitnessOf(fit, gen, idx, n int, org *genetics.Organism) float64 {
 			return float64(gen + 1)
 		}
 		return float64((idx*(n-1)+gen)%n + 1)
+	case 10: // exact zeros and two tiny positive values (below the 1e-4 the library substitutes for negative fitness)
+		switch (idx + gen) % 4 {
+		case 1:
+			return 5e-5
+		case 3:
+			return 2e-5
+		}
+		return 0
 	}
 	return 0
 }
@@ -401,6 +409,8 @@ type popRun struct {
 	oracles       oracleSet
 	x             *Exec
 	ledger        *InnovationLedger
+	seqExec       *genetics.SequentialPopulationEpochExecutor
+	parExec       *genetics.ParallelPopulationEpochExecutor
 	ioRoles       map[int]network.NodeNeuronType
 	everSpID      map[int]bool
 	maxSpID       int
@@ -930,17 +940,48 @@ func (r *popRun) checkChampions(pre *preEpoch, pop *genetics.Population, epoch i
 	}
 }
 
+// processSeqExec / processParExec, when non-nil, are the ONE executor value every run of the process uses
+// (an application may keep one executor for several populations and experiments); otherwise a run keeps
+// one executor for all its epochs, as Experiment.Execute does for a trial.
+var processSeqExec *genetics.SequentialPopulationEpochExecutor
+var processParExec *genetics.ParallelPopulationEpochExecutor
+
+func (r *popRun) seqExecutor() *genetics.SequentialPopulationEpochExecutor {
+	if processSeqExec != nil {
+		return processSeqExec
+	}
+	if r.seqExec == nil {
+		r.seqExec = &genetics.SequentialPopulationEpochExecutor{}
+	}
+	return r.seqExec
+}
+
+func (r *popRun) parExecutor() *genetics.ParallelPopulationEpochExecutor {
+	if processParExec != nil {
+		return processParExec
+	}
+	if r.parExec == nil {
+		r.parExec = &genetics.ParallelPopulationEpochExecutor{}
+	}
+	return r.parExec
+}
+
+// shareExecutors switches the process-wide executors on.
+func shareExecutors() {
+	processSeqExec = &genetics.SequentialPopulationEpochExecutor{}
+	processParExec = &genetics.ParallelPopulationEpochExecutor{}
+}
+
 // step turns the population over in the scenario's mode.
 func (r *popRun) step(ctx context.Context, pop *genetics.Population, gen int, pre *preEpoch) error {
 	switch r.sc.Mode {
 	case "whole":
-		ex := &genetics.SequentialPopulationEpochExecutor{}
-		return ex.NextEpoch(ctx, gen, pop)
+		return r.seqExecutor().NextEpoch(ctx, gen, pop)
 	case "par", "parrev":
 		// the parallel executor under the controlled scheduler with a fixed schedule
 		// (default: the running thread continues, else the lowest id; parrev: the highest id);
 		// its interleavings are explored by C16
-		ex := &genetics.ParallelPopulationEpochExecutor{}
+		ex := r.parExecutor()
 		var err error
 		rev := r.sc.Mode == "parrev"
 		res := vsched.Run(vsched.Config{MaxSteps: 200000, Choose: func(n int, cur bool) int {
@@ -960,7 +1001,7 @@ func (r *popRun) step(ctx context.Context, pop *genetics.Population, gen int, pr
 		}
 		return err
 	case "phase", "perspecies":
-		ex := &genetics.SequentialPopulationEpochExecutor{}
+		ex := r.seqExecutor()
 		if err := ex.VPrepare(ctx, gen, pop); err != nil {
 			return err
 		}
@@ -1059,6 +1100,7 @@ type hbSpec struct {
 	Sizes, Ages, Lags []int
 	Stagnant          bool // the population-level stagnation counter is far past DropOffAge+5 (delta coding at the next epoch)
 	Unsorted          bool // genes are listed in descending innovation order (legal for the readers and for duplication, not produced by the operators)
+	SelfLoop          bool // every genome carries a self-loop gene on the output that is NOT flagged recurrent (legal for the readers and constructors, not produced by add-link)
 }
 
 var hbSpecs = map[string]hbSpec{
@@ -1074,6 +1116,8 @@ var hbSpecs = map[string]hbSpec{
 	"hbd3": {Sizes: []int{13}, Ages: []int{5}, Lags: []int{0}, Stagnant: true},
 	// one sizeable species whose genomes list their genes out of innovation order
 	"hbu": {Sizes: []int{8}, Ages: []int{3}, Lags: []int{0}, Unsorted: true},
+	// one sizeable species whose genomes hold an unflagged self-loop gene without a trait
+	"hbs": {Sizes: []int{8}, Ages: []int{3}, Lags: []int{0}, SelfLoop: true},
 }
 
 // hbGenome: the XOR start genome plus k hidden nodes, each splitting gene 2->4
@@ -1113,6 +1157,9 @@ func buildHandBuilt(sp hbSpec, opts *neat.Options) *genetics.Population {
 				}
 				return 0
 			}(), i)
+			if sp.SelfLoop {
+				spec.Genes = append(spec.Genes, GeneSpec{In: 4, Out: 4, W: 0.7, Innov: int64(4 + 2*si), Mut: 0.7, En: true, Trait: 0})
+			}
 			if sp.Unsorted {
 				for a, b := 0, len(spec.Genes)-1; a < b; a, b = a+1, b-1 {
 					spec.Genes[a], spec.Genes[b] = spec.Genes[b], spec.Genes[a]
@@ -1134,6 +1181,9 @@ func buildHandBuilt(sp hbSpec, opts *neat.Options) *genetics.Population {
 	}
 	if sp.Unsorted {
 		maxK += 2
+	}
+	if sp.SelfLoop {
+		maxK++
 	}
 	pop.VSetCounters(int64(3+2*maxK), int32(5+maxK))
 	opts.PopSize = id
